@@ -3,4 +3,17 @@ package main
 // Obligations that are not SMT-backed: table facts, ground constant facts, flow (dependency / secrecy) clauses,
 // frame clauses and labelled bounded stand-ins.
 
-func (s *Session) extraObligations(prop string) ([]*Obligation, error) { return nil, nil }
+func (s *Session) extraObligations(prop string) ([]*Obligation, error) {
+	var out []*Obligation
+	switch prop {
+	case "C20":
+		out = append(out, s.c20Obligations()...)
+	case "C16":
+		for _, ob := range s.c20Obligations() {
+			if hasProp(ob.Props, "C16") {
+				out = append(out, ob)
+			}
+		}
+	}
+	return out, nil
+}
